@@ -5,7 +5,9 @@ Every function is read in the NORMAL FORM computed by translator/c18_norm.py (ge
 module-level constants resolved, private helpers of the package inlined, single-binding local aliases and named
 intermediate results substituted, match / local dispatch dict -> if chain, guard clauses, filling loops -> comprehensions,
 conditional assignments -> conditional expressions, loops over literal tuples unrolled, getattr/setattr with literal
-names, annotations / docstrings / logging dropped), so that a refactoring of those kinds yields the same table; every
+names, pure builtin calls / identity tests held in locals substituted, class patterns -> isinstance, functools.partial of
+a helper expanded, dict(<generator>) -> comprehension, tuple unpacking and merged with-statements split, annotations /
+docstrings / logging dropped), so that a refactoring of those kinds yields the same table; every
 shape the normal form does not reduce to the ones below still fails closed.
 
 Extracted (nothing else is believed about the code):
@@ -15,7 +17,10 @@ Extracted (nothing else is believed about the code):
                      statement that stores into the new detector: which container <- which key of "data"
                      (through local aliases), which key.replace(a, b) unescaping
   * Detector.from_dict : tag -> class dispatch
-  * Photon.to_dict / from_dict : the two sub-keys and their escaping, in test order
+  * Photon.to_dict / from_dict : the two sub-keys and their escaping; read PATH BY PATH (every execution path through the
+                     ifs, so guard clauses / early returns / if-elif / nested ifs with inverted tests are one shape): which
+                     key is written from a plain copy / from every entry of self._array.to_dict(); which attribute is stored
+                     from which key when the first / only the second / neither tested key is present
   * backends/asdf.py  : version/type/properties/data are passed through unchanged, the frame goes through
                      DataFrame.to_dict(orient="list") / pd.DataFrame(...)
   * models/util.py load_detector : does any statement store into the PASSED detector, or is the parameter
@@ -427,66 +432,159 @@ def tr_dispatch(fn):
     return out
 
 
+def _paths(stmts, conds=(), acc=()):
+    """execution paths of a block of straight-line statements and `if`s (guard clauses, if / elif / else, nested ifs all
+    give the same set): [(tests taken as ((test, polarity), ...), statements executed, terminating Return / Raise or None)]."""
+    for i, s in enumerate(stmts):
+        if isinstance(s, ast.If):
+            out = []
+            for branch, pol in ((s.body, True), (s.orelse, False)):
+                out += _paths(list(branch) + list(stmts[i + 1:]), conds + ((s.test, pol),), acc)
+            return out
+        if isinstance(s, (ast.Return, ast.Raise)):
+            return [(conds, acc, s)]
+        if isinstance(s, (ast.For, ast.While, ast.Try, ast.With, ast.Match, ast.FunctionDef, ast.ClassDef, ast.AsyncFunctionDef,
+                          ast.AsyncFor, ast.AsyncWith, ast.Break, ast.Continue, ast.Delete, ast.Global, ast.Nonlocal)):
+            fail(s, "unsupported statement (only assignments, calls, imports and ifs are read path by path)")
+        acc = acc + (s,)
+    return [(conds, acc, None)]
+
+
+def _key_test(t, mapping):
+    """`'<key>' in <mapping>` / `'<key>' not in <mapping>` / `not ...`  ->  (key, polarity)."""
+    pol = True
+    while isinstance(t, ast.UnaryOp) and isinstance(t.op, ast.Not):
+        t, pol = t.operand, not pol
+    if isinstance(t, ast.Compare) and len(t.ops) == 1 and isinstance(t.ops[0], (ast.In, ast.NotIn)) \
+            and ast.unparse(t.comparators[0]) == mapping:
+        return _s(t.left), pol == isinstance(t.ops[0], ast.In)
+    fail(t, f"test must be '<key>' in {mapping}")
+
+
 def tr_photon(S):
+    """Photon.to_dict: every execution path returns a dict with at most one entry; one entry is a plain copy of self._array
+    (2-D key), the other copies every entry of self._array.to_dict() with at most one key escaping (3-D key); written either
+    as `return {key: value}` or as a store into the returned local (`dct[key] = value`).
+    Photon.from_dict: read path by path - on the paths where the FIRST tested key is present, obj.array is stored once from
+    that key; where it is absent and the second key is present, obj.array_3d is stored once from that key; where both are
+    absent nothing is stored; every path returns obj."""
     td = S.func("pyxel/data_structure/photon.py", "to_dict", cls="Photon")
     wk, wesc = {}, None
+    writes = []             # (key, value, node)
+    rets = [n for n in ast.walk(td) if isinstance(n, ast.Return)]
+    ret_names = {n.value.id for n in rets if isinstance(n.value, ast.Name)}
+    if len(ret_names) > 1:
+        fail(td, "Photon.to_dict must return one local")
+    for r in rets:
+        if isinstance(r.value, ast.Dict):
+            if len(r.value.keys) > 1 or any(k is None for k in r.value.keys):
+                fail(r, "Photon.to_dict must return a dict with at most one entry")
+            writes += [(_s(k), v, r) for k, v in zip(r.value.keys, r.value.values)]
+        elif not isinstance(r.value, ast.Name):
+            fail(r, "Photon.to_dict must return a dict literal or the local it fills")
     for n in ast.walk(td):
         if isinstance(n, ast.Assign) and len(n.targets) == 1 and isinstance(n.targets[0], ast.Subscript) \
-                and isinstance(n.targets[0].value, ast.Name) and n.targets[0].value.id == "dct":
-            key = _s(n.targets[0].slice)
-            src = {a[0] for a in _self_attrs(n.value)}
-            if src != {"array"}:
-                fail(n, "Photon.to_dict entry must store self._array")
-            three_d = isinstance(n.value, ast.DictComp)
-            if three_d:
-                _no_filter(n.value, "Photon.to_dict")
-                if ast.unparse(n.value.generators[0].iter).replace(" ", "") != "self._array.to_dict().items()" \
-                        or not isinstance(n.value.value, ast.Name):
-                    fail(n, "Photon.to_dict (3-D) must copy every entry of self._array.to_dict()")
-                wesc = _one_escape(n.value, n)
-            wk["3d" if three_d else "2d"] = key
+                and isinstance(n.targets[0].value, ast.Name) and n.targets[0].value.id in ret_names:
+            writes.append((_s(n.targets[0].slice), n.value, n))
+        elif isinstance(n, ast.Assign) and any(isinstance(t, ast.Name) and t.id in ret_names for t in n.targets):
+            if not (isinstance(n.value, ast.Dict) and not n.value.keys) and _empty_dict_call(n.value) is False:
+                fail(n, "the local returned by Photon.to_dict must start as an empty dict")
+        elif isinstance(n, ast.Call) and isinstance(n.func, ast.Attribute) and isinstance(n.func.value, ast.Name) \
+                and n.func.value.id in ret_names:
+            fail(n, "the local returned by Photon.to_dict may only be filled by `dct[key] = value`")
+    for key, value, n in writes:
+        src = {a[0] for a in _self_attrs(value)}
+        if src != {"array"}:
+            fail(n, "Photon.to_dict entry must store self._array")
+        three_d = isinstance(value, ast.DictComp)
+        if three_d:
+            _no_filter(value, "Photon.to_dict")
+            if ast.unparse(value.generators[0].iter).replace(" ", "") != "self._array.to_dict().items()" \
+                    or not isinstance(value.value, ast.Name):
+                fail(n, "Photon.to_dict (3-D) must copy every entry of self._array.to_dict()")
+            wesc = _one_escape(value, n)
+        if ("3d" if three_d else "2d") in wk:
+            fail(n, "Photon.to_dict must write one 2-D and one 3-D key")
+        wk["3d" if three_d else "2d"] = key
     if sorted(wk) != ["2d", "3d"]:
         fail(td, "Photon.to_dict must write one 2-D and one 3-D key")
     fd = S.func("pyxel/data_structure/photon.py", "from_dict", cls="Photon")
-    ifs = [s for s in body_no_doc(fd) if isinstance(s, ast.If)]
-    if len(ifs) != 1:
-        fail(fd, "Photon.from_dict must have one if/elif chain")
-    first = ifs[0]
-    if not (len(first.orelse) == 1 and isinstance(first.orelse[0], ast.If) and not first.orelse[0].orelse):
-        fail(first, "Photon.from_dict must be if <2-D key> ... elif <3-D key> ...")
-    rk, resc = {}, None
-    for tagname, node in (("first", first), ("second", first.orelse[0])):
-        t = node.test
-        if not (isinstance(t, ast.Compare) and len(t.ops) == 1 and isinstance(t.ops[0], ast.In)
-                and ast.unparse(t.comparators[0]) == "data"):
-            fail(t, "Photon.from_dict test must be '<key>' in data")
-        key = _s(t.left)
-        body_src = node.body
-        stores = [s for s in body_src if isinstance(s, ast.Assign) and _attr_chain(s.targets[0])
-                  and _attr_chain(s.targets[0])[0] == "obj"]
-        if len(stores) != 1:
-            fail(node, "Photon.from_dict branch must store once into obj")
-        attr = _attr_chain(stores[0].targets[0])[1]
-        used = {c.value for s in body_src for c in ast.walk(s) if isinstance(c, ast.Constant) and isinstance(c.value, str)
+    params = [a.arg for a in fd.args.args]
+    if params[-1:] != ["data"]:
+        fail(fd, "Photon.from_dict signature must end with `data`")
+    paths = _paths(body_no_doc(fd))
+    order = []              # keys in the order in which they are tested
+    seen = {}               # (first present, second present) -> (attribute stored, key read)
+    for conds, acc, end in paths:
+        env = {}
+        consistent = True
+        for t, pol in conds:
+            key, p = _key_test(t, "data")
+            p = p if pol else not p
+            if key not in order:
+                order.append(key)
+            if env.setdefault(key, p) != p:
+                consistent = False      # the same key tested twice with different outcomes: not an execution path
+        if not consistent:
+            continue
+        if not (isinstance(end, ast.Return) and isinstance(end.value, ast.Name) and end.value.id == "obj"):
+            fail(end or fd, "every path of Photon.from_dict must return obj")
+        stores = [s for s in acc if isinstance(s, ast.Assign) and isinstance(s.targets[0], ast.Attribute)
+                  and _attr_chain(s.targets[0]) and _attr_chain(s.targets[0])[0] == "obj"]
+        for s in acc:
+            if isinstance(s, ast.Expr) or (isinstance(s, ast.Assign) and s not in stores and not all(
+                    isinstance(t, ast.Name) for t in s.targets)):
+                fail(s, "unsupported statement in Photon.from_dict")
+        if len(stores) > 1:
+            fail(stores[1], "Photon.from_dict path must store at most once into obj")
+        used = {c.value for s in acc for c in ast.walk(s) if isinstance(c, ast.Constant) and isinstance(c.value, str)
                 and c.value.startswith("array")}
-        if used != {key}:
-            fail(node, "Photon.from_dict branch must read the key it tests")
-        if attr == "array":
-            rk["2d"] = (key, tagname)
-        elif attr == "array_3d":
-            rk["3d"] = (key, tagname)
+        if not stores:
+            got = None
+            if used:
+                fail(fd, "a path of Photon.from_dict reads a key without storing it")
+        else:
+            attr = _attr_chain(stores[0].targets[0])[1]
+            if len(used) != 1:
+                fail(stores[0], "a path of Photon.from_dict must read exactly the key it stores")
             e = set()
-            for s in body_src:
+            for s in acc:
                 _no_filter(s, "Photon.from_dict")
                 e |= _escapes(s)
             if len(e) > 1:
-                fail(node, "more than one key.replace")
-            resc = next(iter(e)) if e else None
-        else:
-            fail(node, "Photon.from_dict stores into an unknown attribute")
-    if sorted(rk) != ["2d", "3d"] or rk["2d"][1] != "first":
-        fail(fd, "Photon.from_dict must test the 2-D key first, then the 3-D key")
-    return (wk["2d"], wk["3d"]), (rk["2d"][0], rk["3d"][0]), wesc, resc
+                fail(stores[0], "more than one key.replace")
+            got = (attr, next(iter(used)), next(iter(e)) if e else None)
+        if len(order) > 2:
+            fail(fd, "Photon.from_dict must test two keys")
+        state = tuple(env.get(k) for k in order)
+        seen.setdefault(state, set()).add(got)
+    if len(order) != 2:
+        fail(fd, "Photon.from_dict must test the 2-D key, then the 3-D key")
+    k1, k2 = order
+
+    def outcome(p1, p2):
+        """what is stored when k1 / k2 are present or not (paths that do not test k2 cover both of its values)."""
+        res = set()
+        for state, gots in seen.items():
+            st = dict(zip(order, state))
+            if st.get(k1) in (None, p1) and st.get(k2) in (None, p2):
+                res |= gots
+        if len(res) != 1:
+            fail(fd, f"Photon.from_dict: no single behaviour when {k1!r} present={p1}, {k2!r} present={p2}")
+        return next(iter(res))
+    first = {outcome(True, True), outcome(True, False)}
+    second, neither = outcome(False, True), outcome(False, False)
+    if len(first) != 1 or None in first or next(iter(first))[:2] != ("array", k1) or next(iter(first))[2] is not None:
+        fail(fd, "Photon.from_dict must store obj.array from the key tested first whenever it is present")
+    if second is None or second[:2] != ("array_3d", k2):
+        fail(fd, "Photon.from_dict must store obj.array_3d from the second key when only that one is present")
+    if neither is not None:
+        fail(fd, "Photon.from_dict must store nothing when neither key is present")
+    return (wk["2d"], wk["3d"]), (k1, k2), wesc, second[2]
+
+
+def _empty_dict_call(v):
+    return isinstance(v, ast.Call) and isinstance(v.func, ast.Name) and v.func.id == "dict" and not v.args and not v.keywords
 
 
 def check_asdf(S):
